@@ -13,6 +13,8 @@ import copy
 WEIGHTS = [Fraction(0), Fraction(1, 4), Fraction(1, 2), Fraction(1), Fraction(1), Fraction(3, 2),
            Fraction(2), Fraction(3)]
 
+TINY = Fraction(1, 2 ** 40)
+
 CAT_LIKE = ("cat", "cat_date", "datetime", "text", "binned", "logical")
 
 
@@ -247,7 +249,7 @@ def gen_answer(rng, var, p_missing=None):
     return [rng.randrange(len(var.cats))]
 
 
-def gen_survey(rng, vars_, n_resp=None, weighted=True, skew=True):
+def gen_survey(rng, vars_, n_resp=None, weighted=True, skew=True, tiny=False):
     """list of (weight Fraction, [answer per var])."""
     n_resp = n_resp if n_resp is not None else rng.randint(0, 40)
     # skew: with some probability restrict each variable's support so that empty rows/cols occur
@@ -260,8 +262,11 @@ def gen_survey(rng, vars_, n_resp=None, weighted=True, skew=True):
         else:
             supports.append(list(range(ncat)))
     survey = []
+    # now and then the whole survey is weighted on a tiny (still dyadic, hence exact) scale: proportions, indexes and
+    # tests of proportions are scale-free, so nothing may treat a base of 2^-40 as "empty"
+    scale = TINY if (weighted and rng.random() < 0.07 and tiny) else Fraction(1)
     for _ in range(n_resp):
-        w = rng.choice(WEIGHTS) if weighted else Fraction(1)
+        w = rng.choice(WEIGHTS) * scale if weighted else Fraction(1)
         ans = []
         for v, sup in zip(vars_, supports):
             if v.is_array:
